@@ -401,7 +401,18 @@ pub fn shard_e2(def: &E2Def, tier: &str, seed: u64, shard: u32, programs: u32) -
     let mut out = ShardOut::default();
     let mut rng = seed ^ (u64::from(shard) << 32) ^ 0x1234_5678_9abc_def1;
     let mut stats: BTreeMap<String, u64> = BTreeMap::new();
-    'prog: for case in cases {
+    'prog: for (pi, case) in cases.into_iter().enumerate() {
+        // every third program is a structured scenario (see scenario.rs) instead of a free one
+        let mut focus = 0..0;
+        let case = if pi % 3 == 2 {
+            let r = case_hash(&(seed, shard, pi as u64, 0x5ce0u32));
+            let sc = if (pi / 3 + shard as usize) % 2 == 0 { crate::scenario::after_eviction(r) } else { crate::scenario::storm(r) };
+            *stats.entry(format!("scenario_{}", sc.name)).or_insert(0) += 1;
+            focus = sc.focus;
+            sc.case
+        } else {
+            case
+        };
         let cr = match count_run(&sb, &case) {
             Ok(c) => c,
             Err(e) => {
@@ -433,7 +444,22 @@ pub fn shard_e2(def: &E2Def, tier: &str, seed: u64, shard: u32, programs: u32) -
             });
             break 'prog;
         }
-        let pts = sample_points(&cr, def.quick_points, &mut rng, thorough);
+        let mut pts = sample_points(&cr, def.quick_points, &mut rng, thorough);
+        if !focus.is_empty() && !thorough {
+            // every tracked call inside the focus operations (strided above 90 calls)
+            let lo = cr.states[focus.start].calls;
+            let hi = cr.states[focus.end.min(cr.states.len() - 1)].calls;
+            let n = hi.saturating_sub(lo);
+            let stride = n.div_ceil(90).max(1);
+            let have: BTreeSet<i64> = pts.iter().filter(|p| p.1 < 0).map(|p| p.0).collect();
+            let off = (rng as usize) % stride;
+            for c in (lo + off..hi).step_by(stride) {
+                if !have.contains(&(c as i64)) {
+                    pts.push((c as i64, -1));
+                    *stats.entry("focus_points".into()).or_insert(0) += 1;
+                }
+            }
+        }
         let h = case_hash(&case);
         for (n, t) in pts {
             out.evaluations += 1;
